@@ -8,6 +8,7 @@ mod c20;
 mod exec;
 mod fixtures;
 mod issuance;
+mod nr;
 mod pres;
 mod reg;
 mod tamper;
@@ -36,7 +37,7 @@ fn backend() -> &'static str {
 fn gen(stream: &str, tier: &str, seed: u64) -> Result<(), String> {
     let mut rng = Rng::new(seed);
     let thorough = tier == "thorough";
-    let gens: Vec<fn(&str, bool, &mut Rng) -> Option<Result<(), String>>> = vec![reg::gen, pres::gen, issuance::gen, bn::gen, c19::gen, c20::gen, ser::gen];
+    let gens: Vec<fn(&str, bool, &mut Rng) -> Option<Result<(), String>>> = vec![reg::gen, pres::gen, issuance::gen, nr::gen, bn::gen, c19::gen, c20::gen, ser::gen];
     for g in gens {
         if let Some(r) = g(stream, thorough, &mut rng) {
             return r;
